@@ -83,8 +83,9 @@ CLAIMS = {
             "ended before the object, and with chronologically ordered breaks forces the first object after a break; "
             "sliders get velocity = 100*SM/(beat_len*clamp(100/sv)/100) literally, duration = spans*dist/velocity, node "
             "and object samples from the sample point 5 ms after each node / the end by the SamplePoint::apply rules; "
-            "constants pinned. PARTIAL: shift invariance (T15d) is not proved, only tested by the oracle on integer times "
-            "and shifts. Tie to the code: implementation-side oracle written from the property text (stable order incl. "
+            "constants pinned. Shift invariance (T15d): REFUTED for non-integer times with a Coq witness (finding D20: "
+            "fl(parse t + 5) vs parse(t + 5)); for integer times it is not proved, only tested by the oracle (integer and "
+            "fractional-time maps, shifts in [-1e6,1e6]). Tie to the code: implementation-side oracle written from the property text (stable order incl. "
             ">20 ties, breaks, closed-form velocity/duration, sample defaults, shifts in [-1e6,1e6]); correspondence of the "
             "decoder models on the same files.",
             "§6 C15"),
